@@ -39,6 +39,23 @@ def closePreprocess (isOwner hasRole : Bool) (s : AState) (skip : Bool) : CloseD
   else if skip || s.terminal then .asKeeper
   else .denied
 
+/-- who signs a close: the action's owner, the funds receiver recorded in the header (which falls back to
+the owner when none is set), or anybody else -/
+inductive Caller where
+  | owner | receiver | other
+  deriving DecidableEq, Repr
+
+/-- the ownership test of `Close::preprocess` compares the signer with `header.owner` — NOT with the
+receiver: a distinct receiver is a stranger as far as closing is concerned -/
+def callerIsOwner (who : Caller) (receiverDistinct : Bool) : Bool :=
+  match who with
+  | .owner => true
+  | .receiver => !receiverDistinct
+  | .other => false
+
+def closePreprocessBy (who : Caller) (receiverDistinct hasRole : Bool) (s : AState) (skip : Bool) : CloseDecision :=
+  closePreprocess (callerIsOwner who receiverDistinct) hasRole s skip
+
 /-- one action together with the token/lamport holders it interacts with -/
 structure ActWorld where
   state : AState
